@@ -344,7 +344,21 @@ func vcOne(tmp string, id string, sc vcScenario, k int) (string, int, []string) 
 		})
 	}
 	aged := k%3 == 0 || (dupInFlight && k%2 == 0)
-	if k%6 == 0 || (dupInFlight && k%2 == 0) {
+	if dupInFlight && k%2 == 1 {
+		// the retransmission came two days after the delivery, and the process died while it was on the stage:
+		// the partials are fresh, the record of the delivery is two days old
+		vsAgeLogDir(e2.logDir, 48*time.Hour)
+		// (a consistent world: the file that was delivered two days ago was written before that)
+		filepath.Walk(e2.stageDir, func(p string, info os.FileInfo, err error) error {
+			if err == nil && !info.IsDir() && filepath.Ext(p) == compExt {
+				if c, err := readLocalCompanion(strings.TrimSuffix(p, compExt), ""); err == nil && c != nil {
+					c.Time.Time = c.Time.Add(-48 * time.Hour)
+					writeCompanion(strings.TrimSuffix(p, compExt), c)
+				}
+			}
+			return nil
+		})
+	} else if k%6 == 0 || (dupInFlight && k%2 == 0) {
 		// ... and in every sixth (and in half of those with a retransmission in flight) the process died two
 		// days ago: what it had logged dates from then too
 		vsAgeLogDir(e2.logDir, 48*time.Hour)
